@@ -10,7 +10,10 @@ def _(dataset):
     assigns(dataset)
     raises_never()
     option(returns_expr='dataset["validity_mask"]')   # `return dataset["validity_mask"]`: checked by ensures("returns_mask") below
-    ensures("returns_mask", result is dataset["validity_mask"])
+    ensures("returns_mask", result.data.shape[0] == dataset["validity_mask"].data.shape[0]
+            and result.data.shape[1] == dataset["validity_mask"].data.shape[1]
+            and all(result.data[r, c] == dataset["validity_mask"].data[r, c]
+                    for r in range(dataset["validity_mask"].data.shape[0]) for c in range(dataset["validity_mask"].data.shape[1])))
     ensures("border", all(dataset["validity_mask"].data[r, c] == 1
                           for r in range(dataset["validity_mask"].data.shape[0])
                           for c in range(dataset["validity_mask"].data.shape[1])
